@@ -364,8 +364,15 @@ func c08Sequence(x *runCtx, r *rand.Rand, backend string, k lab.Kind, reuse bool
 				} else if n, _ := fmt.Sscanf(e, "om%d", &ek); n == 1 {
 					kind = "om"
 				}
-				if ek != tk {
-					viol("effect-under-another-token:"+kind, input(), res.String())
+				if ek != tk || tk < 0 || tk >= len(g.hist) {
+					sig := "effect-under-another-token:" + kind
+					if tk < 0 {
+						sig = "effect-without-a-session-token:" + kind + ":tok=" + strings.SplitN(q.Variant, ":", 3)[0] + strings.TrimPrefix(q.Tok, "b")
+						if parts := strings.Split(q.Variant, ":"); len(parts) == 3 && parts[0] == "badtok" {
+							sig = "effect-under-damaged-token:" + kind + ":" + parts[1]
+						}
+					}
+					viol(sig, input(), res.String())
 					continue
 				}
 				h := g.hist[tk]
